@@ -31,6 +31,13 @@ func runC16(c *Ctx) {
 	rootLookup(c)
 	purlTypeLookup(c)
 	runC16rest(c)
+	// "precisely the nodes satisfying the criterion" and "does not depend on the order of nodes":
+	// the loops of the lookup and matching functions skip an element only for the criterion itself
+	const RL = "loop-totality"
+	c.rule(RL, loopRuleText)
+	lds := pkgFilter(c.reachDecls(RL, "sbom.(*NodeList).GetMatchingNode", "sbom.(*NodeList).GetNodesByName", "sbom.(*NodeList).GetNodesByIdentifier",
+		"sbom.(*NodeList).GetNodesByPurlType", "sbom.(*NodeList).GetRootNodes", "sbom.(*Node).HashesMatch"), "sbom.(*NodeList).", "sbom.(*Node).HashesMatch")
+	c.loopTotality(RL, lds, loopPolicies, commonSkips)
 }
 
 // lookupCriterionRule checks one entry of the lookup-criterion table.
